@@ -58,6 +58,9 @@ type caseSpec struct {
 	WantA      int    `json:"want_windows_a"`
 	WantB      int    `json:"want_windows_b"`
 	Challenges int    `json:"challenges"`
+	// Vary: the memory granted differs from window to window (factors 1, 1/2, 1, 1/3, 3/4 of the cap, never below the
+	// smallest legal window), as when other processes take and release memory while the plot runs
+	Vary bool `json:"memory_varies_between_windows,omitempty"`
 }
 
 // simWindowsA / simWindowsB: how many windows a cap means, from the documented window rule
@@ -160,6 +163,7 @@ func buildCases(seed int64, thorough bool) []caseSpec {
 		rs := pocutil.RecordSize(c.BL)
 		c.WantA = simWindowsA(vol, rs, c.CapA)
 		c.WantB = simWindowsB(vol/2, rs, c.CapB)
+		c.Vary = (c.WantA > 2 || c.WantB > 2) && c.Idx%3 == 0
 		cases = append(cases, c)
 	}
 	newKey := func(label string, i int) string {
@@ -376,6 +380,18 @@ func runCase(cs *caseSpec, dir string, tbl *ref.Table) (r result) {
 			c = cs.CapB
 		}
 		seen["size."+string(pass)]++
+		if c != 0 && cs.Vary {
+			k := seen["size."+string(pass)] - 1
+			num, den := []uint64{1, 1, 1, 1, 3}[k%5], []uint64{1, 2, 1, 3, 4}[k%5]
+			c = c * num / den
+			min := uint64(2 * rs)
+			if pass == 'B' {
+				min = uint64(4 * rs)
+			}
+			if c < min {
+				c = min
+			}
+		}
 		if c != 0 && c < v {
 			return c // only ever lowers
 		}
@@ -825,7 +841,9 @@ func absorb(run *vh.Run, cs *caseSpec, r *result, shapes map[string]bool, smu *s
 	if r.WinA > 1 || r.WinB > 1 {
 		run.Count("plots_multi_window", 1)
 	}
-	if r.WinA != cs.WantA || r.WinB != cs.WantB {
+	if cs.Vary {
+		run.Count("plots_with_memory_varying_between_windows", 1)
+	} else if r.WinA != cs.WantA || r.WinB != cs.WantB {
 		run.Count("window_count_differs_from_intended", 1)
 	}
 	if !r.TilingOK {
